@@ -49,6 +49,7 @@ type Path struct {
 	nsymAssert int
 	finding  string
 	notes    []string
+	known    map[uint64][]knownCond
 }
 
 // Case is one harness invocation: function + concrete arguments.
@@ -268,6 +269,12 @@ func (w *Worker) runItem(it *WorkItem) {
 			case abortPath:
 				outcome = "inconclusive"
 				reason = r.reason
+			case engineCrash:
+				outcome = "inconclusive"
+				reason = "engine crash: " + r.msg + " in " + r.where
+				if os.Getenv("GOSX_DEBUG") != "" {
+					fmt.Fprintf(os.Stderr, "ENGINE CRASH: %s\n  at %s\n%s\n", r.msg, r.where, r.stack)
+				}
 			case targetPanic:
 				// uncaught Go panic in the interpreted program: violation candidate
 				msg := "panic: " + valString(r.v)
@@ -398,6 +405,9 @@ func (in *Interp) recordViolation(msg string) {
 
 func (in *Interp) nondet(kind string, s Sort) *Term {
 	p := in.path
+	if p.merge != nil {
+		panic(mergeAbort{"nondet inside merged call"})
+	}
 	name := fmt.Sprintf("n%d_%d", len(p.nondets), int(s))
 	v := Var(name, s)
 	p.nondets = append(p.nondets, nondetRec{Kind: kind, Name: name, v: v})
@@ -417,6 +427,48 @@ func (in *Interp) refreshModel() {
 func (in *Interp) addPC(c *Term) {
 	p := in.path
 	p.pc = append(p.pc, c)
+	p.learn(c, true)
+}
+
+type knownCond struct {
+	t   *Term
+	val bool
+}
+
+// learn records facts implied by asserting c == val (used to skip decisions that are already determined).
+func (p *Path) learn(c *Term, val bool) {
+	for c.op == ONot {
+		c = c.args[0]
+		val = !val
+	}
+	if c.op == OConst {
+		return
+	}
+	if (c.op == OAnd && val) || (c.op == OOr && !val) {
+		p.learn(c.args[0], val)
+		p.learn(c.args[1], val)
+		return
+	}
+	if p.known == nil {
+		p.known = map[uint64][]knownCond{}
+	}
+	h := c.Hash()
+	p.known[h] = append(p.known[h], knownCond{c, val})
+}
+
+// implied reports whether the truth value of c already follows syntactically from the path condition.
+func (p *Path) implied(c *Term) (bool, bool) {
+	pol := true
+	for c.op == ONot {
+		c = c.args[0]
+		pol = !pol
+	}
+	for _, k := range p.known[c.Hash()] {
+		if deepSame(k.t, c) {
+			return k.val == pol, true
+		}
+	}
+	return false, false
 }
 
 // decide resolves a boolean condition to a concrete branch, forking if both sides are feasible.
@@ -427,6 +479,9 @@ func (in *Interp) decide(c *Term) bool {
 	p := in.path
 	if p.merge != nil {
 		return in.mergeDecide(c)
+	}
+	if v, ok := p.implied(c); ok {
+		return v
 	}
 	if p.pos < len(p.item.prefix) {
 		d := p.item.prefix[p.pos]
